@@ -261,7 +261,7 @@ def main(ck):
         n = 0
     else:
         files = sorted(glob.glob(os.path.join(ck.verif, "corpus", PID, "*.json")))
-        n = 450 if ck.tier == "quick" else 12000
+        n = 1500 if ck.tier == "quick" else 20000
     cases = []
     if files:
         rc, cs, out = run_harness(ck, binp, ["replay"] + files)
